@@ -290,18 +290,20 @@ def fault_site(script0, script_k):
     return (entry + '<' if entry else '') + '<'.join(fr)
 
 
-def run_scenario(args, dom, cap):
+def run_scenario(args, dom, cap, cold=False):
+    """cold: the prepared statements that the set-up and the observations left cached in the CIF are dropped just before the
+    call, so that the call under test prepares - and may fail to prepare - every statement it uses"""
     sc = args
     ex = Exec(exe('san'))
     ex.audit = False
-    res = {'name': sc['name'], 'domain': dom, 'faults': 0, 'failed_cleanly': 0, 'absorbed': 0, 'viol': [], 'allocs': 0}
+    res = {'name': sc['name'], 'domain': dom, 'cold': cold, 'faults': 0, 'failed_cleanly': 0, 'absorbed': 0, 'viol': [], 'allocs': 0}
 
     def viol(kind, k, detail, site=''):
         entry = site.split('<')[0] if site.startswith(('sqlite3_', 'u')) and '<' in site else ''
-        res['viol'].append(({'scenario': sc['name'], 'allocator': DOMAINS[dom], 'kind': kind, 'site': site, 'entry': entry, 'class': 'iterator' if sc['iterator'] else 'plain'}, dict(detail, k=k, scenario=sc['name'], allocator=DOMAINS[dom], call=sc['call'])))
+        res['viol'].append(({'scenario': sc['name'], 'allocator': DOMAINS[dom], 'kind': kind, 'site': site, 'entry': entry, 'class': 'iterator' if sc['iterator'] else 'plain'}, dict(detail, k=k, scenario=sc['name'], allocator=DOMAINS[dom], call=sc['call'], cold=cold)))
 
-    def script(k):
-        l = ['reset'] + sc['setup'] + sc['obs'] + ['count.reset', 'fault.arm %d %d' % (k or 0, dom), sc['call'] if k is not None else 'env']
+    def script(k, warm=not cold):
+        l = ['reset'] + sc['setup'] + sc['obs'] + ['env' if warm else 'cold', 'count.reset', 'fault.arm %d %d' % (k or 0, dom), sc['call'] if k is not None else 'env']
         l += ['fault.off', 'env'] + sc['obs']
         if k and sc['retry']:
             l.append(sc['call'])
@@ -330,7 +332,7 @@ def run_scenario(args, dom, cap):
         viol('leak without any fault', 0, {'message': '%d allocation(s) not released' % (live_after - base_live)})
     p = 1 + nset
     pre0 = a0[p:p + nobs]
-    ic = p + nobs + 2
+    ic = p + nobs + 3
     call0 = a0[ic] if isinstance(a0[ic], dict) else {'rc': 0, 'v': a0[ic]}
     res['allocs'] = a0[ic + 2]['allocs']
     post0 = a0[ic + 3:ic + 3 + nobs]
@@ -375,12 +377,13 @@ def run_scenario(args, dom, cap):
             continue
         rc = call.get('rc')
         post = a[ic + 3:ic + 3 + nobs]
+        pre = a[p:p + nobs]
         msgs = []
         if rc in (ERROR, MEMORY):
             res['failed_cleanly'] += 1
             # a failed call leaves the managed CIF as it was; caller-owned values and packets need only stay valid
             # (they were dumped through the public API and are released below)
-            for cmd, before, after_ in zip(sc['obs'], a[p:p + nobs], post):
+            for cmd, before, after_ in zip(sc['obs'], pre, post):
                 if (cmd.startswith('dump C') or cmd.startswith('autocommit')) and before != after_:
                     msgs.append(('CIF changed by a failed call', 'the call returned %d but "%s" differs from its answer before the call' % (rc, cmd), {'before': before, 'after': after_}))
         elif rc == rc0:
@@ -418,7 +421,7 @@ def run_scenario(args, dom, cap):
                                  {'observed': x, 'fault_free': aft0[i]}))
         def ac(ans):
             return [x.get('autocommit') for x in ans if isinstance(x, dict) and 'autocommit' in x]
-        opened = (0 in ac(a[ic + 3:]) and 0 not in ac(a0[ic + 3:])) or (rc in (ERROR, MEMORY) and 0 in ac(post) and 0 not in ac(a[p:p + nobs]))
+        opened = (0 in ac(a[ic + 3:]) and 0 not in ac(a0[ic + 3:])) or (rc in (ERROR, MEMORY) and 0 in ac(post) and 0 not in ac(pre))
         if opened:
             msgs = [m for m in msgs if m[0].startswith(('return code', 'leak'))]
             msgs.append(('transaction left open', 'after the call a transaction is still open on the CIF (with no iterator alive), so that later operations fail', {'answers': a[ic:]}))
@@ -456,7 +459,7 @@ def probe_expansion():
 
 
 def work(chunk, cap):
-    return [run_scenario(sc, dom, cap) for sc, dom in chunk]
+    return [run_scenario(sc, dom, cap, cold) for sc, dom, cold in chunk]
 
 
 def main():
@@ -471,7 +474,9 @@ def main():
         scs = [s for s in scs if re.search(only, s['name'])]
     doms = [int(x) for x in os.environ.get('C17_DOMAINS', '0,1,2').split(',')]
     cap = int(os.environ.get('C17_CAP', 20000 if tier == 'quick' else 100000))
-    jobs = [(s, d) for d in doms for s in scs]
+    jobs = [(s, d, False) for d in doms for s in scs]
+    # SQLite statements are prepared on first use and cached in the CIF: in the cold variant the cache is emptied before the call
+    jobs += [(s, 1, True) for s in scs if 1 in doms]
     tot = {'faults': 0, 'failed_cleanly': 0, 'absorbed': 0}
     per, capped = {}, []
     for res in pmap(work, [[j] for j in jobs], (cap,)):
@@ -481,9 +486,9 @@ def main():
         for r in res:
             for k in tot:
                 tot[k] += r[k]
-            per.setdefault(DOMAINS[r['domain']], {})[r['name']] = {'allocations': r['allocs'], 'faults': r['faults'], 'error_returns': r['failed_cleanly'], 'absorbed': r['absorbed']}
+            per.setdefault(DOMAINS[r['domain']] + ('-cold' if r['cold'] else ''), {})[r['name']] = {'allocations': r['allocs'], 'faults': r['faults'], 'error_returns': r['failed_cleanly'], 'absorbed': r['absorbed']}
             if r.get('capped'):
-                capped.append((r['name'], DOMAINS[r['domain']]))
+                capped.append((r['name'], DOMAINS[r['domain']] + ('-cold' if r['cold'] else '')))
             for sig, detail in r['viol']:
                 rep.violation(sig, detail)
                 if os.environ.get('C17_DUMP'):
@@ -491,7 +496,7 @@ def main():
     dompart = {d: {'scenarios': len(v), 'faults': sum(x['faults'] for x in v.values())} for d, v in per.items()}
     return rep.finish({'evaluations': tot['faults'], 'distinct_nontrivial': tot['failed_cleanly'],
                        'rule': '%d scenarios (one public API call each, on a prepared CIF / packet / value of every shape) x allocator domains %s: the call is executed with the k-th allocation request '
-                               'made during the call failing, for EVERY k from 1 until an execution no longer reaches the armed request (cap %d per scenario); clang ASan+UBSan build, fresh replay of the scenario prefix per fault. '
+                               'made during the call failing, for EVERY k from 1 until an execution no longer reaches the armed request (cap %d per scenario); clang ASan+UBSan build, fresh replay of the scenario prefix per fault; the SQLite domain is enumerated a second time with the prepared statements cached in the CIF dropped just before the call (cold), so that every statement preparation inside the call is failed too. '
                                'Required: no sanitizer report / crash / hang; return code CIF_MEMORY_ERROR or CIF_ERROR with the observable state (CIF dump, autocommit state, caller-owned values and packets) as before the call, or the fault-free '
                                'code with the complete fault-free effect; the same call repeated succeeds and yields the fault-free result; ledger balanced after releasing everything; no LeakSanitizer report at exit. '
                                'evaluations = single faults injected; non-trivial = faults answered with an error code' % (len(scs), [DOMAINS[d] for d in doms], cap),
